@@ -88,11 +88,11 @@ EvAnnounce == Consume /\ Ev.ev = "Announce" /\ Announce(Ev.t) /\ UNCHANGED follo
 
 (* --------------------------------------------------------------- the follower *)
 \* ... and the follower takes nothing off its queues while the worker is inside the window (update done, resume not yet sent)
-EvHBlock == Consume /\ Ev.ev = "h.block" /\ hst = "top" /\ ntfB # <<>> /\ wst \notin {"s1", "s2"}
+EvHBlock == Consume /\ Ev.ev = "h.block" /\ hst = "top" /\ ntfB # <<>> /\ wst \notin {"s1", "s2", "sF"}
             /\ hst' = "blk0" /\ UNCHANGED <<vars, wst, pre>>
 StepBlock == hst = "blk0" /\ HandleBlock /\ hst' = "blk1"
              /\ pre' = [pre EXCEPT !.h = Durable] /\ UNCHANGED <<l, wst>>
-EvHTx    == Consume /\ Ev.ev = "h.tx" /\ hst = "top" /\ ntfT # <<>> /\ wst \notin {"s1", "s2"}
+EvHTx    == Consume /\ Ev.ev = "h.tx" /\ hst = "top" /\ ntfT # <<>> /\ wst \notin {"s1", "s2", "sF"}
             /\ hst' = "tx0" /\ UNCHANGED <<vars, wst, pre>>
 \* proccessReceivedTx decides in read transactions (ready wallets, inputs, known ids) and writes in a later
 \* update: the decision is a silent step between h.tx and the commit, the pending record appears with the commit
@@ -118,11 +118,22 @@ EvRollbackH == /\ Consume /\ Ev.ev = "rollback" /\ Ev.role = "H"
                /\ \/ hst = "blk1" /\ Durable = pre.h /\ hst' = "blk2"
                   \* the store refuses a transaction inside its update (a credit that is already unspent or already pending)
                   \/ hst = "tx1" /\ ~pre.acc /\ hst' = "tx2"
+                  \* the abandoned update of a step that met an injected storage fault
+                  \/ hst \in {"blkF", "txF"} /\ hst' = hst
                /\ UNCHANGED <<vars, wst, pre>>
+\* An injected storage fault (harness: one call of the wallet database returns an error, logged as a "fault" line of
+\* that goroutine before the call returns).  A block step that fails consumes its notification and changes nothing
+\* durable (HandleBlockFault: the wallet catches up with the next tip); an unconfirmed-transaction step drops the
+\* transaction; the step itself must not have been taken - a branch in which TLC took it early dies here.
+EvFaultH == /\ Consume /\ Ev.ev = "fault" /\ Ev.role = "H"
+            /\ \/ hst = "blk0" /\ HandleBlockFault /\ hst' = "blkF"
+               \/ hst = "tx0" /\ HandleTxFault /\ hst' = "txF"
+               \/ hst = "tx1" /\ hst' = "txF" /\ UNCHANGED vars        \* decided, the write failed: not recorded
+            /\ UNCHANGED <<wst, pre>>
 EvHSuspended == Consume /\ Ev.ev = "h.suspended" /\ hst = "top" /\ hst' = "susp" /\ UNCHANGED <<vars, wst, pre>>
 EvHResumed   == Consume /\ Ev.ev = "h.resumed" /\ hst = "susp" /\ hst' = "res" /\ UNCHANGED <<vars, wst, pre>>
 EvHTop == /\ Consume /\ Ev.ev = "h.top"
-          /\ \/ hst \in {"blk2", "tx2", "res"}
+          /\ \/ hst \in {"blk2", "tx2", "res", "blkF", "txF"}
              \/ hst = "tx1" /\ ~pre.acc               \* a transaction that was ignored or found irrelevant opens no update
           /\ hst' = "top" /\ UNCHANGED <<vars, wst, pre>>
 
@@ -150,7 +161,16 @@ EvCommitW == /\ Consume /\ Ev.ev = "commit" /\ Ev.role = "W" /\ wst = "s1" /\ hs
              /\ wst' = "s2" /\ UNCHANGED <<vars, hst>>
 EvRollbackW == /\ Consume /\ Ev.ev = "rollback" /\ Ev.role = "W" /\ wst = "s1" /\ hst \in {"top", "susp"} /\ Durable = pre.w
                /\ wst' = "s2" /\ UNCHANGED <<vars, hst, pre>>
-EvWResume  == Consume /\ Ev.ev = "w.resume"  /\ wst = "s2" /\ wst' = "r"  /\ UNCHANGED <<vars, hst, pre>>
+\* a failed update of the worker: the task goes back to the end of the queue (a removal starts over with its first
+\* phase), and the worker must still resume the follower
+WorkerFaultT ==
+    /\ tasks # <<>>
+    /\ tasks' = Append(Tail(tasks), <<IF Head(tasks)[1] = "remove2" THEN "remove" ELSE Head(tasks)[1], Head(tasks)[2]>>)
+    /\ UNCHANGED <<chainVars, wchain, pend, wmem, memp, wexp, up, status, cursor, faulted>>
+EvFaultW == /\ Consume /\ Ev.ev = "fault" /\ Ev.role = "W" /\ wst = "s0" /\ hst \in {"top", "susp"}
+            /\ WorkerFaultT /\ wst' = "sF" /\ UNCHANGED <<hst, pre>>
+EvRollbackWF == Consume /\ Ev.ev = "rollback" /\ Ev.role = "W" /\ wst = "sF" /\ UNCHANGED <<vars, hst, wst, pre>>
+EvWResume  == Consume /\ Ev.ev = "w.resume"  /\ wst \in {"s2", "sF"} /\ wst' = "r"  /\ UNCHANGED <<vars, hst, pre>>
 EvWResumed == Consume /\ Ev.ev = "w.resumed" /\ wst = "r"  /\ wst' = "rd" /\ UNCHANGED <<vars, hst, pre>>
 EvWRound   == Consume /\ Ev.ev = "w.round" /\ wst = "rd" /\ Held /\ wst' = "round" /\ UNCHANGED <<vars, hst, pre>>
 EvWTop     == Consume /\ Ev.ev = "w.top" /\ wst = "rd" /\ ~Held /\ wst' = "top" /\ UNCHANGED <<vars, hst, pre>>
@@ -197,7 +217,7 @@ EvQEnd == /\ Consume /\ Ev.ev = "q.end" /\ pre.qo
 TraceNext == \/ EvQBegin \/ EvQEnd
              \/ EvExtend \/ EvFork \/ EvForkSlow \/ EvReorgStep \/ EvSwitchTo \/ EvAnnounce
              \/ EvHBlock \/ StepBlock \/ EvHTx \/ StepTx \/ EvCommitH \/ EvRollbackH
-             \/ EvHSuspended \/ EvHResumed \/ EvHTop
+             \/ EvHSuspended \/ EvHResumed \/ EvHTop \/ EvFaultH \/ EvFaultW \/ EvRollbackWF
              \/ EvWSuspend \/ StepWorker \/ EvCommitW \/ EvRollbackW \/ EvWResume \/ EvWResumed \/ EvWRound \/ EvWTop
              \/ EvApi
 TraceNext2 == TraceNext /\ UNCHANGED <<hist, flags>>
